@@ -132,6 +132,9 @@ static Plan gen_set_plan(const SetFamily &fam, const SetProfile &prof, uint64_t 
   p.keyDom = prof.keyDomMin + r.below(prof.keyDomMax - prof.keyDomMin + 1);
   p.cmpMode = 1 + r.below(3);
   if (prof.smallBias && r.below(100) < prof.smallBias) p.cmpMode |= 16;  // bit 4: keep sizes within N
+  // bit 5: a "big" run (about one history run in twelve): ten times the key domain, larger ranges and bulk insertions -- sets of a few
+  // hundred elements, so that code paths that only exist from a size on are reached in the quick tier as well
+  if (prof.swarm && !(p.cmpMode & 16) && prof.keyDomMax <= 64 && r.chance(1, 12)) { p.cmpMode |= 32; p.keyDom *= 10; }
   unsigned w[S_NKINDS];
   unsigned long total = 0;
   for (int k = 0; k < S_NKINDS; ++k) {
@@ -150,6 +153,7 @@ static Plan gen_set_plan(const SetFamily &fam, const SetProfile &prof, uint64_t 
     Op o;
     o.id = (int)i; o.kind = kind; o.c = r.below(1000); o.d = r.below(1000);
     o.a = (unsigned)r.next(); o.b = (unsigned)r.next(); o.n = (unsigned)r.next(); o.src = (int)r.below(SRC_NKINDS);
+    o.self = r.below(20) == 3 ? 1 : 0;  // only meaningful for copy / move assignment and swap
     if (prof.faultPermille && r.below(1000) < prof.faultPermille && !s_is_macro(kind) && kind != S_RELOCATE) {
       o.fkind = r.chance(1, 2) ? F_ELEM : F_ALLOC;
       o.fk = (int)(r.below(3) ? r.below(3) : r.below(10));
@@ -273,14 +277,14 @@ struct SRunner {
     std::string err;
     if (!s.type->walk(s.obj, fwd, rev, err)) { viol(VK_FAULT, P(9), std::string(why) + ": " + err); return; }
     SetObs o = s.type->observe(s.obj);
-    if (fwd.size() != o.size) { viol(VK_FAULT, P(9), std::string(why) + ": size() inconsistent with iteration"); return; }
+    if (fwd.size() != o.size) { viol(VK_FAULT, P(9) | base_of(s), std::string(why) + ": size() inconsistent with iteration"); return; }
     ModelCmp mc{s.mode};
     if (s.type->flavour == SF_FLAT)
       for (size_t i = 1; i < fwd.size(); ++i)
         if (!mc(fwd[i - 1], fwd[i])) { viol(VK_FAULT, P(9) | P(3), std::string(why) + ": FlatSet no longer sorted and duplicate-free"); return; }
     Model nm(mc);
     for (const Val &v : fwd)
-      if (!nm.insert(v).second) { viol(VK_FAULT, P(9), std::string(why) + ": set holds two equivalent elements"); return; }
+      if (!nm.insert(v).second) { viol(VK_FAULT, P(9) | base_of(s), std::string(why) + ": set holds two equivalent elements"); return; }
     s.model.swap(nm);
     s.fwd = fwd;
   }
@@ -374,7 +378,7 @@ struct SRunner {
         return true;
       }
       case S_INSERT_RANGE: case S_INSERT_IL: case S_CTOR_RANGE: case S_CTOR_IL: case S_ASSIGN_IL: {
-        size_t n = (op.kind == S_INSERT_RANGE || op.kind == S_CTOR_RANGE) ? (((op.n >> 8) & 3) == 0 ? op.n % 24 : op.n % 6) : op.n % 4;
+        size_t n = (op.kind == S_INSERT_RANGE || op.kind == S_CTOR_RANGE) ? (((op.n >> 8) & 3) == 0 ? op.n % ((plan.cmpMode & 32) ? 200 : 24) : op.n % 6) : op.n % 4;
         size_t base = (op.kind == S_INSERT_RANGE || op.kind == S_INSERT_IL) ? sz : 0;
         if (base + n > room) n = room > base ? room - base : 0;
         if (stayInline && base + n > t.N) n = t.N > base ? t.N - base : 0;
@@ -384,7 +388,7 @@ struct SRunner {
       case S_BULK: case S_FROM_VECTOR: case S_ASSIGN_VECTOR: {
         if (op.kind != S_BULK && !t.hasVectorOps) return false;
         if (stayInline) return false;
-        size_t mx = prof ? prof->bulkMax : 40;
+        size_t mx = (prof ? prof->bulkMax : 40) * ((plan.cmpMode & 32) ? 8 : 1);
         size_t n = 17 + op.n % (mx > 17 ? mx - 16 : 1);
         if (((op.n >> 12) & 7) == 0) n = op.n % 17;
         size_t base = op.kind == S_BULK ? sz : 0;
@@ -505,6 +509,8 @@ struct SRunner {
         break;
       }
     }
+    // s = s, s = std::move(s), s.swap(s): legal for std::set (the moved-from-itself set is valid but unspecified, the others change nothing)
+    if (op.self && (op.kind == S_COPY_ASSIGN || op.kind == S_MOVE_ASSIGN || op.kind == S_SWAP)) w = &s;
     const SetType &t = *s.type;
     G.begin_op(idx, op.kind, op.id, set_op_name(op.kind));
     G.baseProps = base_of(s);
@@ -592,6 +598,12 @@ struct SRunner {
                G.opPoisonCmpCalls, set_op_name(io.kind));
       G.violate(VK_CMPOBJ, base, m);
     }
+    if (!G.viol.set() && G.opCmpBytewise) {
+      char m[200];
+      snprintf(m, sizeof m, "the set's comparator object was moved by raw byte copy although its type is not trivially relocatable (%u call(s) on it in %s)",
+               G.opCmpBytewise, set_op_name(io.kind));
+      G.violate(VK_CMPOBJ, P(14) | P(2), m);
+    }
     if (!G.viol.set() && res.outcome != OUT_RETURNED && !threwFault) {
       char m[200];
       snprintf(m, sizeof m, "unexpected exception (%s%s%s) from %s", outcome_name(res.outcome), res.exWhat.empty() ? "" : ": ", res.exWhat.c_str(), set_op_name(io.kind));
@@ -676,7 +688,7 @@ struct SRunner {
         char m[200];
         snprintf(m, sizeof m, "live element objects created by the containers: %ld, elements owned by the containers: %ld (%s); harness temporaries alive: %ld",
                  g_elems.liveArmed, want, g_elems.liveArmed > want ? "leak" : "lost element / destroyed twice", g_elems.liveHarness);
-        viol(VK_ELEM, P(2), m);
+        viol(VK_ELEM, P(2) | (fired ? base : 0), m);  // after a fault: the set itself is no longer what a std::set would be either
       }
     }
     if (!G.viol.set()) g_heap.check_canaries();
